@@ -1338,7 +1338,11 @@ class Engine:
             for f in (spec.get('modifies_fields', {}).get(x) or o.fields):
                 havoced.add('{}.{}'.format(x, f))
         for nme in sorted(names):
-            if nme in env:
+            lty = self.frames[-1]['contract'].get('locals', {}).get(nme, '') if self.frames else ''
+            if nme in env and isinstance(lty, str) and lty.startswith('optobj:') and (env[nme] is None or isinstance(env[nme], (VOpt, VObj))):
+                # `G = None` before the loop, an object assigned inside it: None or some object of the declared class
+                env[nme] = VOpt(self.fresh(nme + '_isnone', z3.BoolSort()), self.fresh_obj(nme, lty[7:]))
+            elif nme in env:
                 env[nme] = self.havoc_value(nme, env[nme])
             else:
                 pass        # first assigned inside the loop: unbound before; stays unbound until assigned
@@ -1990,6 +1994,15 @@ class Engine:
         return zand(*out)
 
     def compare(self, op, a, b, node):
+        if isinstance(a, VClass) and isinstance(b, tuple) and b and b[0] == 'global' and isinstance(op, (ast.Eq, ast.NotEq)):
+            # a class value compared with a class name: decided by the class the model stands for.  A model of a base class stands
+            # for its subclasses too (declared in the class model: `stands_for`)
+            names = [self.classmodels[a.model].get('real', a.model)] + list(self.classmodels[a.model].get('stands_for', []))
+            r = b[1].split('.')[-1] in names
+            return r if isinstance(op, ast.Eq) else not r
+        if isinstance(a, VClass) and isinstance(op, (ast.In, ast.NotIn)) and isinstance(b, VTuple):
+            r = zor(*[self.compare(ast.Eq(), a, y, node) for y in b.items])       # graph_class in [Graph, DirectedGraph]
+            return r if isinstance(op, ast.In) else znot(r)
         if isinstance(a, VClass):
             a = a.ident
         if isinstance(b, VClass):
@@ -1997,6 +2010,9 @@ class Engine:
         if isinstance(op, (ast.Eq, ast.NotEq)) and (isinstance(a, str) != isinstance(b, str)) and \
                 (isinstance(a, (VArr, VRange, VPairs, VTuple, VSeq)) or isinstance(b, (VArr, VRange, VPairs, VTuple, VSeq))):
             return isinstance(op, ast.NotEq)         # a list never equals a string
+        if (isinstance(a, VStr) and isinstance(b, str)) or (isinstance(b, VStr) and isinstance(a, str)):
+            if isinstance(op, (ast.Eq, ast.NotEq)):
+                return self.fresh('streq', z3.BoolSort())      # an opaque token compared with a literal: either answer
         if isinstance(a, VChar) or isinstance(b, VChar):
             c, x = (a, b) if isinstance(a, VChar) else (b, a)
             if isinstance(x, str) and len(x) == 1 and isinstance(op, (ast.Eq, ast.NotEq)):
@@ -2118,6 +2134,11 @@ class Engine:
 
     def ev_Attribute(self, e, env):
         o = self.eval(e.value, env)
+        if isinstance(o, VOpt) and isinstance(o.val, VObj):
+            if not getattr(self, 'in_spec', False):
+                # python: AttributeError on None
+                self.oblige('hazard', 'object is not None in {}'.format(ast.unparse(e)), z3.Not(o.isnone), e.lineno)
+            o = o.val
         if isinstance(o, VObj):
             if e.attr in o.fields:
                 return o.fields[e.attr]
@@ -2236,6 +2257,8 @@ class Engine:
         st = self.eval(sl.step, env) if sl.step else None
         if isinstance(base, VTuple) and all(x is None or isinstance(x, int) for x in (lo, hi, st)):
             return VTuple(base.items[slice(lo, hi, st)], base.kind)
+        if isinstance(base, VStr):
+            return '<str>'              # a slice of an opaque text never raises; its content is not looked into
         if isinstance(base, VArr) and lo is None and hi is None and st == -1:
             t = z3.Int('rev!j')
             n = base.length
